@@ -19,6 +19,12 @@ def plan(ctx):
         obs.append(Obligation(f"api.t{i}", "xh", "c10", "api_scope", param={"t": i}, timeout=T,
                               bounds="host binding present or not (symbolic), values unbounded ints",
                               desc=f"SqParser.eval({text!r})"))
+    for lvl in (1, 2):
+        obs.append(Obligation(f"sd.get.none_at_{lvl}", "xh", "c10", "sd_get", param={"none_at": lvl}, timeout=T,
+                              bounds="as sd.get, with the bindings of one scope level having the value None",
+                              desc="a binding whose value is None still shadows outer bindings of the same name"))
+    obs.append(Obligation("api.no_names_history", "xh", "c10", "no_names_history", timeout=T, bounds="two histories (assignment to a builtin name / to a fresh name), host int symbolic",
+                          desc="assignments made by eval() WITHOUT a names mapping do not survive into later evals on the same parser"))
     for i, text in enumerate(["len(l)", "l | len", "[1] | map(v => len(l)) | sum"]):
         obs.append(Obligation(f"api.two_evals.t{i}", "xh", "c10", "two_evals", param={"text": text}, timeout=T,
                               bounds="two evals of the same source on one parser (shared tree), shadowing host binding in the first or the second (symbolic)",
